@@ -108,8 +108,84 @@ func isErrConstructor(s *Sym) bool {
 }
 
 // C13 — configuration algebra.
+// c13Errors — C13.E: inside package confchange no error result of a package-internal call is
+// dropped: each is tested against nil or returned (a dropped error from apply lets a change that
+// removes every voter through).
+func c13Errors(c *Check) {
+	p := c.P
+	ccPath := pkgPaths["confchange"]
+	n := 0
+	for _, fn := range p.RuleFuncs {
+		pk := fnPkg(fn)
+		if pk == nil || pk.Path() != ccPath {
+			continue
+		}
+		for _, in := range p.liveInstrsOf(fn) {
+			call, ok := in.(*ssa.Call)
+			if !ok {
+				continue
+			}
+			callee := call.Common().StaticCallee()
+			if callee == nil || fnPkg(callee) == nil || fnPkg(callee).Path() != ccPath {
+				continue
+			}
+			res := callee.Signature.Results()
+			if res.Len() == 0 || !isErrorType(res.At(res.Len()-1).Type()) {
+				continue
+			}
+			// the error value: the call itself (single result) or its last Extract
+			var errVals []ssa.Value
+			if res.Len() == 1 {
+				errVals = append(errVals, call)
+			} else if call.Referrers() != nil {
+				for _, r := range *call.Referrers() {
+					if ex, ok := r.(*ssa.Extract); ok && ex.Index == res.Len()-1 {
+						errVals = append(errVals, ex)
+					}
+				}
+			}
+			n++
+			used := false
+			seen := map[ssa.Value]bool{}
+			var visit func(v ssa.Value, d int)
+			visit = func(v ssa.Value, d int) {
+				if v == nil || seen[v] || d > 3 || v.Referrers() == nil {
+					return
+				}
+				seen[v] = true
+				for _, r := range *v.Referrers() {
+					switch x := r.(type) {
+					case *ssa.BinOp, *ssa.Return:
+						used = true
+					case *ssa.Phi:
+						visit(x, d+1)
+					case *ssa.Store:
+						// spilled result cell of a function with defer
+						used = true
+					case ssa.CallInstruction:
+						used = true // wrapped (c.err(err)) or passed on
+					case *ssa.MakeInterface, *ssa.ChangeInterface:
+						visit(x.(ssa.Value), d+1)
+					}
+				}
+			}
+			for _, ev := range errVals {
+				visit(ev, 0)
+			}
+			c.Result(used, "C13.E", "error result of "+callee.Name(), fnName(fn), p.site(in), "tested against nil, returned or passed on (never dropped)", "")
+		}
+	}
+	c.Result(n >= 3, "C13.E", "error-returning internal calls found", "-", "-", "the Changer operations call apply/checkAndCopy/checkInvariants", fmt.Sprint(n))
+}
+
+func isErrorType(t types.Type) bool {
+	n, ok := t.(*types.Named)
+	return ok && n.Obj().Pkg() == nil && n.Obj().Name() == "error"
+}
+
 func c13ConfAlgebra(c *Check) {
 	p := c.P
+	c13Errors(c)
 	ccPath := pkgPaths["confchange"]
 	checkAndReturn := p.Func("confchange", "checkAndReturn")
 	checkAndCopy := p.Method("confchange", "Changer", "checkAndCopy")
